@@ -23,6 +23,9 @@ import (
 func TestC02(t *testing.T) {
 	rec := runCodec(t, "C02", false, true)
 	opsSuite(t, rec)
+	// marshal operations into two messages from one struct value, then adds on each (see C18)
+	gfan := genCtx(t)
+	rec.Suite("marshal-fan-out", rec.N(300, 30000), func(c *ev.Case) { fanOutRound(c, gfan) })
 	if rec.Race() {
 		// marshal operations from several goroutines at once, on a struct type that is used for
 		// the first time (see C18, suite concurrent-first-use): the header length equals the
